@@ -44,9 +44,23 @@ var sysFuncs = map[string]bool{}
 func init() {
 	for _, f := range strings.Fields(`Read Write Writev Readv Close Accept4 Accept Socket Bind Listen Connect
 		EpollCreate1 EpollCtl EpollWait Eventfd Recvfrom Sendto Send FcntlInt Dup CloseOnExec SetNonblock
+		GetsockoptInt Getsockname Getpeername Shutdown
 		SetsockoptInt SetsockoptLinger SetsockoptInet4Addr SetsockoptIPv6Mreq SetsockoptIPMreq SetsockoptByte
 		SetsockoptString BindToDevice Syscall6 RawSyscall6`) {
 		sysFuncs[f] = true
+	}
+}
+
+// pureSysFuncs are functions of x/sys/unix and syscall that do not enter the
+// kernel with a descriptor (conversions, helpers): calling them from simulated
+// code is harmless.
+var pureSysFuncs = map[string]bool{}
+
+func init() {
+	for _, f := range strings.Fields(`Errno ErrnoName Signal SignalName ByteSliceFromString BytePtrFromString
+		Getpagesize Getpid Gettid Getuid Getenv IoctlGetInt ParseSocketControlMessage CmsgSpace CmsgLen
+		Handle CloseHandle SysctlUint32 Kqueue Kevent Pipe2 RawSyscall`) {
+		pureSysFuncs[f] = true
 	}
 }
 
@@ -55,6 +69,10 @@ type Report struct {
 	Files    int
 	Rewrites map[string]int
 	Skipped  []string
+	// Unmodelled lists calls into x/sys/unix or syscall that the simulated
+	// kernel has no counterpart for: they would reach the real kernel with a
+	// simulated descriptor number, so a tree containing one cannot be judged.
+	Unmodelled []string
 }
 
 type knob struct {
@@ -348,6 +366,19 @@ func (rw *rewriter) run() {
 		}
 		if as, ok := n.(*ast.AssignStmt); ok && len(as.Lhs) == 2 && len(as.Rhs) == 1 {
 			commRecv[as.Rhs[0]] = true // v, ok := <-ch handled at statement level
+		}
+		return true
+	})
+	ast.Inspect(rw.file, func(n ast.Node) bool {
+		if call, ok := n.(*ast.CallExpr); ok {
+			if sel, ok := call.Fun.(*ast.SelectorExpr); ok {
+				switch rw.pkgOf(sel.X) {
+				case "golang.org/x/sys/unix", "syscall":
+					if n := sel.Sel.Name; !sysFuncs[n] && !pureSysFuncs[n] && !strings.HasPrefix(n, "Sockaddr") {
+						rw.rep.Unmodelled = append(rw.rep.Unmodelled, fmt.Sprintf("%s: %s.%s", rw.fset.Position(call.Pos()), rw.pkgOf(sel.X), n))
+					}
+				}
+			}
 		}
 		return true
 	})
